@@ -204,6 +204,32 @@ def r20_2(ctx, prog, crate):
     ctx.anchor("R20.2", "is_last arguments", n, 7)
 
 
+def r20_10(ctx, prog, crate):
+    """A leaf is closed with the position it was opened with: wherever one function both starts leaves and finishes
+    them with statistics, the is_last given to finish_leaf (it decides whether the continuation rows carry the bar of a
+    later sibling) ranges over exactly the positions given to the start_leaf calls that can precede it."""
+    n = 0
+    for b in prog.lib_bodies(crate):
+        if "::tests::" in b.path or not (b.path.startswith("divan::") or b.path.startswith("tree_painter::")):
+            continue
+        fin = [c for c in b.live_calls() if c.callee == P + "finish_leaf"]
+        sta = [c for c in b.live_calls() if c.callee == P + "start_leaf"]
+        if not fin or not sta:
+            continue
+        ctx.saw(b)
+        for f in fin:
+            n += 1
+            back = b.reach_back([f.bb])
+            pre = [s for s in sta if s.bb in back]
+            fd = set(_is_last_ok(prog, b, f.args[1])[1].split("|"))
+            sd = set()
+            for s in pre:
+                sd |= set(_is_last_ok(prog, b, s.args[2])[1].split("|"))
+            ctx.check(bool(pre) and fd == sd, "R20.10", [b.path, "finish-position-is-the-start-position"],
+                      "finish_leaf in `%s` is told is_last = {%s} but the leaf it closes was started with is_last = {%s}" % (b.path, ", ".join(sorted(fd)), ", ".join(sorted(sd))), f.line())
+    ctx.anchor("R20.10", "finish_leaf calls paired with start_leaf", n, 1)
+
+
 def _is_last_ok(prog, b, a):
     """Every origin of the bool is Eq(enumerate index, len(iterated) - 1), a parameter/captured is_last, or a
     selection between those."""
@@ -727,6 +753,7 @@ def r20_9(ctx, prog, crate):
 def run(ctx, prog, crate):
     r20_8(ctx, prog, crate)
     r20_9(ctx, prog, crate)
+    r20_10(ctx, prog, crate)
     r20_7(ctx, prog, crate)
     r20_1(ctx, prog, crate)
     r20_2(ctx, prog, crate)
